@@ -1,5 +1,6 @@
 import Dmn.Lemmas.BifsPos
 import Dmn.Model.BifEval
+import Dmn.Lemmas.MergeSort
 
 /-!
 # C08 — built-in functions return their specified value for all arguments; named = positional
@@ -425,6 +426,25 @@ theorem core_mean_spec (xs : List Value) : core_mean xs = .ok (Spec.meanV xs) :=
       cases ds with
       | nil => cases x <;> simp [Spec.allNums] at h
       | cons d ds => rfl
+
+/-- `sort(list, precedes)` (the merge sort of `core.rs` since f38c8b6) returns a permutation of the
+list **for every ordering function** — also one that is not a total order, on which the
+library sort used before panicked: nothing is lost, nothing is duplicated. -/
+theorem sort_perm {α : Type} (precedes : α → α → Bool) (xs : List α) : (mergeSort precedes xs).Perm xs :=
+  mergeSortFuel_perm precedes xs.length xs
+
+/-- For an ordering function that is asymmetric and whose complement is transitive (a strict
+weak order, e.g. `function(x,y) x < y`) the result is ordered: no item precedes an earlier one. -/
+theorem sort_sorted {α : Type} (precedes : α → α → Bool)
+    (hasym : ∀ a b, precedes a b = true → precedes b a = false)
+    (htrans : ∀ a b c, mayPrecede precedes a b → mayPrecede precedes b c → mayPrecede precedes a c)
+    (xs : List α) : (mergeSort precedes xs).Pairwise (mayPrecede precedes) :=
+  mergeSortFuel_sorted precedes hasym htrans xs.length xs (Nat.le_succ _)
+
+example : mergeSort (fun (a b : Nat) => decide (a < b)) [3, 1, 2, 1] = [1, 1, 2, 3] := by
+  simp [mergeSort, mergeSortFuel, merge]
+example : mergeSort (fun (a b : Nat) => a != b) [3, 1, 2, 1] = [1, 1, 2, 3] := by
+  simp [mergeSort, mergeSortFuel, merge]
 
 /-- `sort_by` returns a permutation of its input -/
 theorem sortBy_perm {α : Type} (cmp : α → α → Ordering) (xs : List α) : (sortBy cmp xs).Perm xs := by
